@@ -38,6 +38,9 @@ def named_inter_member(t):
     return False
 
 
+INEXACT_LITERALS = ["3.14159"]      # BeffSem!InexactFractions
+
+
 def has_recursive_decl(env):
     """syntactic projection: is some declaration reachable from itself?"""
     def refs(t, acc):
@@ -112,6 +115,7 @@ def run(prop, tier):
         rec = {"id": i, "outcome": c["_comp"]["outcome"] if (o1 is None or o1["load"] == "ok") else "load-failed",
                "refunder": ref_under_union(c["ty"]) or any(ref_under_union(d.get("ty", {})) for d in c["env"]),
                "recursive": has_recursive_decl(c["env"]),
+               "inexactlit": any(x in c["_src"] for x in INEXACT_LITERALS),
                "namedinter": named_inter_member(c["ty"]) or any(named_inter_member(d.get("ty", {})) for d in c["env"]),
                "tploneof": '"p": "oneof"' in json.dumps(c["ty"]) or '"p": "oneof"' in json.dumps(c["env"]), "desc1ok": False, "desc1": "", "decls": [], "vec1": "", "h1": "", "outcome2": "none", "vec2": "", "h2": "", "desc2": ""}
         if o1 is not None and o1["load"] == "ok":
